@@ -219,43 +219,59 @@ def check_from_str(chk, cfg, b):
 
 
 def check_display(chk, cfg, b):
+    """Display decodes exact BITS-wide chunks of to_bitarray(storage)[0, K*BITS) in order.  Accepted shapes (the engine presents
+    `for` and `for_each` alike as a loop):  loop over chunks { s.push(to_char(unsafe_from_bits(load_le::<u8>(chunk)))) } then write s;
+    or  chunks.map(|chunk| to_char(unsafe_from_bits(load_le::<u8>(chunk)))).collect::<String>()  then write it."""
+    import pipes
+    import xlate
     what = "Display for Kmer"
     paths, _ = an.analyse(cfg, b)
     r = [p for p in paths if p.end == "return"]
-    if len(r) != 1 or r[0].guards:
-        chk.cannot("R17", what, "not a single unconditional path", b["span"])
+    conts = [p for p in paths if p.end == "continue"]
+    bad = [p for p in paths if p.end not in ("return", "continue", "panic")]
+    if len(r) != 1 or bad:
+        chk.cannot("R17", what, "not a single exit path", b["span"])
         return
     p = r[0]
     ch = [x for x in p.calls if short(x[0]) == "chunks"]
-    fe = [x for x in p.calls if short(x[0]) == "for_each"]
     ok = False
     got = ""
-    if len(ch) == 1 and len(fe) == 1:
+
+    def decode_of(v, item):
+        # to_char(unsafe_from_bits(load_le::<u8>(item)))
+        if an.is_call(v, "<A as codec::Codec>::to_char"):
+            d = v[2][0]
+            if an.is_call(d, "<A as codec::Codec>::unsafe_from_bits"):
+                return an.is_call(d[2][0], re.compile(r"BitField>::load_le::<u8>$"), (item,))
+        return False
+    if len(ch) == 1:
         bits, w = ch[0][1][0], ch[0][1][1]
         got = "chunks(%s, %s)" % (show(bits), show(w))
         okb = bits[0] == "bslice" and bits[2] == canon(c(0)) and bits[3] == canon(mul(K, BITS)) and \
             an.is_call(bits[1], re.compile(r"KmerStorage>::to_bitarray$"), (F(P(1), "bs"),))
         okw = canon(w) == canon(BITS)
-        it, clo = fe[0][1][0], fe[0][1][1]
         okc = False
-        if clo[0] == "closure" and it == ch[0][2]:
-            cb = [x for x in cfg.bio.bodies if x["path"] == clo[1]]
-            if len(cb) == 1:
-                cps, _ = an.analyse(cfg, cb[0], policy=an.NoInline())
-                cr = [q for q in cps if q.end == "return"]
-                if len(cr) == 1 and not cr[0].guards:
-                    push = [x for x in cr[0].calls if x[0] == "std::string::String::push"]
-                    if len(push) == 1:
-                        chv = push[0][1][1]
-                        # to_char(unsafe_from_bits(load_le::<u8>(chunk)))
-                        if an.is_call(chv, "<A as codec::Codec>::to_char"):
-                            d = chv[2][0]
-                            if an.is_call(d, "<A as codec::Codec>::unsafe_from_bits"):
-                                l = d[2][0]
-                                okc = an.is_call(l, re.compile(r"BitField>::load_le::<u8>$"), (P(2),)) and push[0][1][0] == F(P(1), 0)
+        if len(conts) == 1:
+            src = xlate.iter_source(p)
+            item, _nx = xlate.loop_item(conts[0])
+            pre = [x[3].idx for x in p.calls]
+            body = [x for x in conts[0].calls if x[3].idx not in pre and short(x[0]) != "next"]
+            push = [x for x in body if x[0] == "std::string::String::push"]
+            oksrc = src == ch[0][2] or an.is_call(src, re.compile(r"IntoIterator>::into_iter$"), (ch[0][2],))
+            okc = oksrc and item is not None and len(push) == 1 and decode_of(push[0][1][1], item) and \
+                all(x is push[0] or short(x[0]) in ("load_le", "unsafe_from_bits", "to_char") for x in body)
+            got += "; loop body " + str([short(x[0]) for x in body])
+        elif not conts:
+            col = [x for x in p.calls if pipes.COLLECT.search(x[0])]
+            if len(col) == 1 and pipes.COLLECT.search(col[0][0]).group(1) == "std::string::String":
+                mp = col[0][1][0]
+                if mp[0] == "call" and pipes.MAP.search(mp[1]) and mp[2][0] == ch[0][2]:
+                    cr = pipes.closure_ret(cfg, mp[2][1])
+                    okc = cr is not None and decode_of(cr, ("ARG",))
+                    got += "; map closure " + (show(cr)[:100] if cr else "?")
         ok = okb and okw and okc
         # the string that is written is the one that was filled
         wf = [x for x in p.calls if short(x[0]) in ("write_fmt", "write_str")]
         ok = ok and len(wf) == 1
-    chk.ob("R17", what, ok, "Display must decode exact BITS-wide chunks of to_bitarray(storage)[0 .. K*BITS] via to_char(unsafe_from_bits(load_le::<u8>(chunk))); got " + got, b["span"],
+    chk.ob("R17", what, ok, "Display must decode exact BITS-wide chunks of to_bitarray(storage)[0 .. K*BITS] via to_char(unsafe_from_bits(load_le::<u8>(chunk))), in order, into the string it writes; got " + got, b["span"],
            sample=got)
